@@ -6,7 +6,7 @@ Every construct without a rule raises `Inconclusive` -- never a verdict.
 """
 import re
 import z3
-from .mir import split_top
+from .mir import split_top, split_call
 
 BV = z3.BitVecVal
 
@@ -162,6 +162,8 @@ INT_W = {'u8': 8, 'u16': 16, 'u32': 32, 'u64': 64, 'usize': 64, 'i8': 8, 'i16': 
          'isize': 64, 'char': 32, 'u128': 128, 'i128': 128, 'bool': 1}
 SIGNED = {'i8', 'i16', 'i32', 'i64', 'isize', 'i128'}
 
+SCALAR_TYPES = {'bool', 'char', 'u8', 'u16', 'u32', 'u64', 'usize', 'i8', 'i16', 'i32', 'i64', 'isize'}
+
 BUILTIN_ENUMS = {
     'Option': (('None', 0), ('Some', 1)),
     'Result': (('Ok', 0), ('Err', 1)),
@@ -231,10 +233,12 @@ class State:
         self.heap = heap if heap is not None else {}
         self.pc = pc if pc is not None else []
         self.writes = 0
+        self.min_written = 1 << 62     # lowest heap address stored to since the last reset (purity tracking)
 
     def fork(self, cond=None):
         s = State(dict(self.heap), list(self.pc))
         s.writes = self.writes
+        s.min_written = self.min_written
         if cond is not None:
             s.pc.append(cond)
         return s
@@ -258,6 +262,8 @@ class State:
 
     def store(self, ref, val):
         self.writes += 1
+        if ref.addr < self.min_written:
+            self.min_written = ref.addr
         self.heap[ref.addr] = set_child_path(self.heap.get(ref.addr), ref.path, val)
 
 
@@ -330,7 +336,21 @@ def parse_place(p):
     return r
 
 
+def _match_paren(s, i):
+    """index of the ')' matching the '(' at s[i]"""
+    depth = 0
+    for j in range(i, len(s)):
+        if s[j] == '(':
+            depth += 1
+        elif s[j] == ')':
+            depth -= 1
+            if depth == 0:
+                return j
+    raise Inconclusive('unbalanced place ' + s)
+
+
 def _parse_place(p):
+    """grammar (as printed by rustc):  P ::= _N | (*P) | (P.K: TYPE) | (P as Variant) | P[_N] | P[K of M]"""
     if re.fullmatch(r'_\d+', p):
         return (p, ())
     m = re.fullmatch(r'(.*)\[(_\d+)\]', p, re.S)
@@ -341,27 +361,34 @@ def _parse_place(p):
     if m:
         b, pr = parse_place(m.group(1))
         return (b, pr + (('cindex', int(m.group(2))),))
-    if p.startswith('(') and p.endswith(')'):
+    if p.startswith('(') and _match_paren(p, 0) == len(p) - 1:
         inner = p[1:-1].strip()
         if inner.startswith('*'):
             b, pr = parse_place(inner[1:])
             return (b, pr + (('deref',),))
-        # "X as Variant"
-        depth = 0
-        for i in range(len(inner) - 1, -1, -1):
-            ch = inner[i]
-            if ch in ')]>':
-                depth += 1
-            elif ch in '([<':
-                depth -= 1
-            elif depth == 0 and inner.startswith(' as ', i) and re.fullmatch(r'\w+', inner[i + 4:]):
-                b, pr = parse_place(inner[:i])
-                return (b, pr + (('downcast', inner[i + 4:]),))
-            elif depth == 0 and ch == ':' and inner[i + 1:i + 2] == ' ' and inner[i - 1] != ':':
-                m = re.fullmatch(r'(.*)\.(\d+)', inner[:i], re.S)
-                if m:
-                    b, pr = parse_place(m.group(1))
-                    return (b, pr + (('field', int(m.group(2))),))
+        # base: either a parenthesised place or a bare local (possibly indexed)
+        if inner.startswith('('):
+            j = _match_paren(inner, 0) + 1
+        else:
+            m = re.match(r'_\d+', inner)
+            if not m:
+                raise Inconclusive('place ' + p)
+            j = m.end()
+        # optional index suffixes on the base
+        while True:
+            m = re.match(r'\[(?:_\d+|\d+ of \d+)\]', inner[j:])
+            if not m:
+                break
+            j += m.end()
+        base, rest = inner[:j], inner[j:]
+        m = re.match(r'\.(\d+): ', rest)
+        if m:
+            b, pr = parse_place(base)
+            return (b, pr + (('field', int(m.group(1))),))
+        m = re.fullmatch(r' as (\w+)', rest)
+        if m:
+            b, pr = parse_place(base)
+            return (b, pr + (('downcast', m.group(1)),))
         raise Inconclusive('place ' + p)
     raise Inconclusive('place ' + p)
 
@@ -386,7 +413,9 @@ class Exec:
     def __init__(self, mir, models, max_depth=40, max_steps=2_000_000, timeout_ms=60000):
         self.mir, self.models, self.max_depth, self.max_steps = mir, models, max_depth, max_steps
         self.solver = z3.SolverFor('QF_UFBV')
-        self.solver.set('timeout', timeout_ms)
+        self.solver.set('timeout', 1500)        # quick incremental attempt; feasible() falls back to a fresh solver
+        self.timeout_ms = timeout_ms
+        self.uses_uf = False
         self.steps = 0
         self.stats = {'paths': 0, 'calls_inlined': 0, 'models_used': {}, 'feasibility_checks': 0, 'inlined_fns': {},
                       'panic_edges_cut': 0}
@@ -405,7 +434,17 @@ class Exec:
         r = self.solver.check()
         self.solver.pop()
         if r == z3.unknown:
-            raise Inconclusive('solver unknown in feasibility check')
+            # the incremental core gave up (large table terms): decide this one query with the bit-blasting tactic
+            self.stats['feasibility_fallbacks'] = self.stats.get('feasibility_fallbacks', 0) + 1
+            s2 = z3.SolverFor('QF_UFBV' if self.uses_uf else 'QF_BV')
+            s2.set('timeout', self.timeout_ms)
+            s2.add(*self.defs)
+            s2.add(*pc)
+            if extra is not None:
+                s2.add(extra)
+            r = s2.check()
+            if r == z3.unknown:
+                raise Inconclusive('solver unknown in feasibility check')
         return r == z3.sat
 
     def define(self, term, prefix='def'):
@@ -447,7 +486,7 @@ class Exec:
         if z3.is_false(c):
             return [(st, False)]
         t = self.feasible(st.pc, c)
-        f = self.feasible(st.pc, z3.Not(c))
+        f = True if not t else self.feasible(st.pc, z3.Not(c))
         if t and f:
             return [(st.fork(c), True), (st.fork(z3.Not(c)), False)]
         if t:
@@ -508,8 +547,8 @@ class Exec:
                 cands = c2
             else:
                 c2 = [n for n in cands if ('::' + segs[-2] + '::' + tail) in ('::' + n)]
-                if c2:
-                    cands = c2
+                # `Type::method` where no impl of `Type` exists in this crate is not a grex function
+                cands = c2 if (c2 or segs[-2][:1].isupper()) else cands
         if len(cands) > 1:
             top = caller.split('::')[0]
             c2 = [n for n in cands if n.startswith(top + '::')]
@@ -562,6 +601,8 @@ class Exec:
     def enum_variant(self, path):
         """`a::Enum::<T>::Variant` -> (enum, variant, discriminant) or None"""
         segs = [s for s in strip_generics(path).split('::') if s]
+        if len(segs) == 1 and segs[0] in ('Less', 'Equal', 'Greater'):
+            segs = ['Ordering', segs[0]]      # MIR prints core::cmp::Ordering variants bare
         if len(segs) < 2:
             return None
         en, var = segs[-2], segs[-1]
@@ -734,7 +775,7 @@ class Exec:
         rv = rv.strip()
         if rv.startswith('const '):
             return self.const(st, fr, rv)
-        if re.match(r'(?:no_retag )?(?:copy|move) ', rv) and ' as ' not in rv:
+        if re.match(r'(?:no_retag )?(?:copy|move) ', rv) and not re.search(r' as .* \((IntToInt|IntToFloat|FloatToInt|FloatToFloat|PtrToPtr|FnPtrToPtr|Transmute|PointerCoercion\(.*\)|PointerExposeProvenance|PointerWithExposedProvenance)\)$', rv, re.S):
             return self.operand(st, fr, rv)
         m = re.match(r'&(?:mut |raw const |raw mut )?(.*)$', rv, re.S)
         if m and not rv.startswith('&&'):
@@ -811,12 +852,13 @@ class Exec:
                 return EnumV(ev[0], ev[1], ev[2], fields)
             return TupV(fields, names, strip_generics(m.group(1)).split('::')[-1])
         # enum tuple variant:  path::Variant(a, b)
-        m = re.match(r'([\w:<>, &\'\[\]();]+?)\((.*)\)$', rv, re.S)
-        if m and not rv.startswith(('copy ', 'move ')):
-            ev = self.enum_variant(m.group(1))
-            if ev:
-                return EnumV(ev[0], ev[1], ev[2], [self.operand(st, fr, x) for x in split_top(m.group(2))])
-            raise Inconclusive('rvalue ' + rv)
+        if not rv.startswith(('copy ', 'move ')):
+            sc = split_call(rv)
+            if sc and sc[0]:
+                ev = self.enum_variant(sc[0])
+                if ev:
+                    return EnumV(ev[0], ev[1], ev[2], [self.operand(st, fr, x) for x in split_top(sc[1])])
+                raise Inconclusive('rvalue ' + rv)
         return self.operand(st, fr, rv)
 
     # ---------- running
@@ -884,6 +926,7 @@ class Exec:
             if m:
                 v = self.operand(st, fr, m.group(1))
                 arms, taken = [], []
+                exhaustive = 'otherwise' in m.group(2)
                 for t in split_top(m.group(2)):
                     k, tgt = [x.strip() for x in t.rsplit(':', 1)]
                     if k == 'otherwise':
@@ -902,8 +945,10 @@ class Exec:
                     if z3.is_true(cond):
                         break
                 live = []
-                for cond, tgt in arms:
-                    if z3.is_true(cond) or self.feasible(st.pc, cond):
+                for i, (cond, tgt) in enumerate(arms):
+                    # the path condition is satisfiable (invariant) and the arms are exhaustive: if every earlier
+                    # arm is infeasible the last one needs no query
+                    if z3.is_true(cond) or (i == len(arms) - 1 and not live and exhaustive) or self.feasible(st.pc, cond):
                         live.append((cond, tgt))
                 if not live:
                     raise Inconclusive('no feasible switch arm in ' + fr.body.name)
@@ -928,10 +973,10 @@ class Exec:
                     st.pc.append(cs)
                 return m.group(4)
             # call with a return edge
-            m = re.match(r'(.*?) = (.*)\((.*)\) -> \[return: (bb\d+), unwind.*\]$', s, re.S)
-            if m and not m.group(2).strip().startswith(('&', 'copy ', 'move ', 'const ')) or \
-                    (m and re.match(r'(move|copy) _\d+$', m.group(2).strip())):
-                dst, callee, argtxt, nxt = m.group(1), m.group(2).strip(), m.group(3), m.group(4)
+            m = re.match(r'(.*?) = (.*) -> \[return: (bb\d+), unwind.*\]$', s, re.S)
+            sc = split_call(m.group(2).strip()) if m else None
+            if sc:
+                dst, callee, argtxt, nxt = m.group(1), sc[0], sc[1], m.group(3)
                 args = [self.operand(st, fr, a) for a in split_top(argtxt)]
                 if callee.startswith(('move ', 'copy ')):
                     f = self.operand(st, fr, callee)
@@ -952,10 +997,11 @@ class Exec:
                     work.append((o.st, nxt))
                 return None
             # diverging call
-            m = re.match(r'(.*?) = (.*)\((.*)\) -> unwind.*$', s, re.S)
-            if m:
-                callee = m.group(2).strip()
-                args = [self.operand(st, fr, a) for a in split_top(m.group(3))]
+            m = re.match(r'(.*?) = (.*) -> unwind.*$', s, re.S)
+            sc = split_call(m.group(2).strip()) if m else None
+            if sc:
+                callee = sc[0]
+                args = [self.operand(st, fr, a) for a in split_top(sc[1])]
                 outs = self.call(st, fr, callee, args, depth)
                 for o in outs:
                     if not o.panic:
@@ -998,39 +1044,50 @@ class Exec:
         name = self.resolve_fn(callee, fr.body.name)
         if name:
             self.stats['calls_inlined'] += 1
+            if self.mir.fns[name].ret.strip() in SCALAR_TYPES:
+                return self.run_pure(st, lambda s: self.run_fn(s, name, args, depth + 1))
             return self.run_fn(st, name, args, depth + 1)
         raise Inconclusive('unmodelled callee %s (called from %s)' % (callee, fr.body.name))
+
+    def run_pure(self, st, thunk):
+        """run thunk(st) -> outcomes; if it forked but wrote nothing that existed before the call and every path
+        returns a scalar, fold the paths into one ite term (keeps callers from multiplying paths)"""
+        mark = State._next_addr[0]
+        base_len = len(st.pc)
+        saved = st.min_written
+        st.min_written = 1 << 62
+        outs = thunk(st)
+        pure = all(o.st.min_written >= mark for o in outs)
+        for o in outs:
+            o.st.min_written = min(saved, o.st.min_written)
+        if len(outs) <= 1 or not pure or any(o.panic or not is_z3(o.val) for o in outs):
+            return outs
+        val = outs[-1].val
+        for o in reversed(outs[:-1]):
+            extra = o.st.pc[base_len:]
+            val = z3.If(z3.And(*extra) if extra else z3.BoolVal(True), o.val, val)
+        if z3.is_bool(val) and len(outs) > 8:
+            val = self.define(val, 'fn')
+        s = outs[-1].st
+        del s.pc[base_len:]
+        self.stats['paths_merged'] = self.stats.get('paths_merged', 0) + len(outs) - 1
+        return [Outcome(s, val)]
 
     def call_value(self, st, f, args, depth):
         """call a closure or fn item value with already-unpacked arguments"""
         if isinstance(f, RefV):
             f = st.load(f)
         if isinstance(f, ClosV):
-            return self.run_fn(st, f.name, [st.ref(f.env)] + list(args), depth + 1)
+            # Fn / FnMut bodies take `&(mut) env`, FnOnce bodies take the environment by value
+            by_ref = self.mir.fns[f.name].params[0][1].lstrip().startswith('&')
+            return self.run_fn(st, f.name, [st.ref(f.env) if by_ref else f.env] + list(args), depth + 1)
         if isinstance(f, FnItem):
-            name = self.resolve_fn(f.path, '')
-            if name:
-                return self.run_fn(st, name, list(args), depth + 1)
-            class _F:  # pseudo frame for model lookup
+            class _F:  # pseudo frame for model lookup / name resolution
                 pass
             fr = _F(); fr.body = type('B', (), {'name': ''})()
             return self.call(st, fr, f.path, list(args), depth)
         raise Inconclusive('call of %r' % (f,))
 
     def call_merged(self, st, f, args, depth):
-        """call f; if it forks without touching the heap and yields scalars, merge the results with ite
-        so that callers (e.g. `any` over 771 ranges) do not explode.  -> list of Outcome"""
-        w0 = st.writes
-        base_pc = len(st.pc)
-        outs = self.call_value(st, f, args, depth)
-        if len(outs) == 1:
-            return outs
-        if any(o.panic for o in outs) or any(not is_z3(o.val) for o in outs):
-            return outs
-        if any(o.st.writes != w0 for o in outs):
-            return outs
-        val = outs[-1].val
-        for o in reversed(outs[:-1]):
-            extra = o.st.pc[base_pc:]
-            val = z3.If(z3.And(*extra) if extra else z3.BoolVal(True), o.val, val)
-        return [Outcome(st, val)]
+        """call a closure / fn value; scalar results of pure calls that forked are folded into one ite term"""
+        return self.run_pure(st, lambda s: self.call_value(s, f, args, depth))
